@@ -170,7 +170,7 @@ func classify(h *genfrag.History, b *genfrag.Built, flags mp4.DecFileFlags, read
 		l.strong = "styp-all"
 	case mech == 1 && top && !segSidx:
 		l.strong = "topsidx"
-	case mech == 1 && mfraEff > 0 && !segSidx && !l.hasEmsg:
+	case mech == 1 && mfraEff > 0 && !segSidx:
 		l.strong = fmt.Sprintf("mfra%d", mfraEff)
 	case mech == 1 && somEff && !segSidx:
 		l.strong = "som"
@@ -658,7 +658,13 @@ func (e *env) oracle1(f *mp4.File) (partition, bool) {
 			for _, s := range e.b.Segs {
 				x := exp{start: s.Start}
 				if e.lay.strong == "mfra1" {
+					// a tfra entry points at the moof: emsg boxes in front of it stay with the
+					// fragment before (only the first segment, which always starts with the first
+					// emsg/moof of the file, begins at its emsg)
 					x.start = e.b.Frags[s.Frags[0]].Moof
+					if len(want) == 0 {
+						x.start = e.b.Frags[s.Frags[0]].Lead
+					}
 				}
 				for _, gi := range s.Frags {
 					x.frags = append(x.frags, idxOf[e.b.Frags[gi]])
@@ -668,7 +674,7 @@ func (e *env) oracle1(f *mp4.File) (partition, bool) {
 		case "som", "mfra2":
 			for i, fr := range frags {
 				st := fr.Lead
-				if e.lay.strong == "mfra2" {
+				if e.lay.strong == "mfra2" && i > 0 {
 					st = fr.Moof
 				}
 				want = append(want, exp{frags: []int{i}, start: st})
